@@ -23,12 +23,15 @@ def initTimeGlobalWrites : List (String × String) := [
   ("github.com/koykov/inspector.init", "inspector.convSnippetRegistry"),
   ("github.com/koykov/inspector.init", "inspector.init$guard"),
   ("github.com/koykov/inspector.init", "inspector.inspectorRegistry"),
+  ("github.com/koykov/inspector.init", "inspector.reIsDecFloat"),
+  ("github.com/koykov/inspector.init", "inspector.reIsDecInt"),
+  ("github.com/koykov/inspector.init", "inspector.reIsDecUint"),
   ("github.com/koykov/inspector.init", "inspector.reMap"),
   ("github.com/koykov/inspector.init", "inspector.reSlc"),
   ("github.com/koykov/inspector.init", "inspector.reUp"),
   ("github.com/koykov/inspector.init", "inspector.reVnd"),
   ("github.com/koykov/inspector.tmpIdx", "inspector.tmpCntr"),
   ("github.com/koykov/inspector/testobj_ins.init", "testobj_ins.init$guard")]
-def runtimeEntryPoints : Nat := 12042
-def functionsReachable : Nat := 12049
+def runtimeEntryPoints : Nat := 13572
+def functionsReachable : Nat := 13575
 end Inspector
